@@ -1,7 +1,7 @@
 """C02 Outcome does not depend on context factory or worker threads."""
 from hypothesis import strategies as st
 
-from .. import core, s4u, syncgen
+from .. import core, lifecycle, s4u, syncgen, timing
 from .c01 import KINDS
 
 FACTORIES = ["raw", "boost", "thread"]
@@ -34,7 +34,7 @@ def per_actor(log):
 
 class C02(core.Prop):
     id = "C02"
-    drivers = ["s4u_interp"]
+    drivers = ["s4u_interp", timing.DRIVER]
     ready = True
     sizes = {"quick": 150, "thorough": 1000}
     max_workers = 5
@@ -42,7 +42,9 @@ class C02(core.Prop):
     technique = ("property-based differential testing (Hypothesis): per-actor observation sequences and kernel signal records of a generated "
                  "program under contexts/factory x contexts/nthreads x contexts/synchro vs the sequential raw configuration")
     rule = ("Programs as in C01 (sleeps, execs, blocking/asynchronous communications, message queues, mutexes, semaphores, condition variables, "
-            "barriers; actors share no memory of their own) on the 3-host shared platform. Reference run: contexts/factory:raw, nthreads 1. "
+            "barriers; actors share no memory of their own) on the 3-host shared platform; one program in four is an actor-management program "
+            "of C11's generator (creations, kills, kill_all, host switches, restarts, daemons, several of them in one scheduling round; "
+            "programs whose reference run ends in one of C11's recorded crash classes are counted invalid). Reference run: contexts/factory:raw, nthreads 1. "
             "Compared configurations per program: the two other factories with 1 thread, plus drawn combinations of factory x nthreads in {2,4} x "
             "synchro in {futex, posix, busy_wait} (4 in quick, all 18 in thorough). Oracle: every actor's own sequence of requests/responses "
             "(operation, hex-float dates, values, exceptions, on_exit records) is identical to the reference, and the multiset of kernel records "
@@ -56,19 +58,48 @@ class C02(core.Prop):
         prog = syncgen.programs(kinds=KINDS, max_actors=5, max_ops=10, min_actors=3, platform=s4u.small_shared_platform())
         combo = st.tuples(st.sampled_from(FACTORIES), st.sampled_from([2, 4]), st.sampled_from(SYNCHROS))
         n = 4 if tier == "quick" else 18
-        return st.tuples(prog, st.lists(combo, min_size=n, max_size=n, unique=True) if tier == "quick" else
+        # one program in four is an actor-management program of C11's generator (creations, kills, kill_all, host switches, restarts,
+        # daemons, often several of them in one scheduling round): what an actor does between its creation and its first scheduling,
+        # or between its kill and its clean-up, goes through factory-specific code (context wrappers)
+        life = lifecycle.c11_programs().map(lambda p: dict(p, lifecycle=True))
+        progs = st.integers(0, 3).flatmap(lambda k: life if k == 0 else prog)
+        return st.tuples(progs, st.lists(combo, min_size=n, max_size=n, unique=True) if tier == "quick" else
                          st.just([(f, t, s_) for f in FACTORIES for t in (2, 4) for s_ in SYNCHROS])).map(
             lambda t: {"program": t[0], "configs": [list(c) for c in t[1]]})
+
+    def fixed_cases(self, tier):
+        """the two minimal inputs of C11's recorded finding 'an actor killed in the scheduling round of its creation': the newborn
+        goes through the context wrapper of its factory with its death already decided, a path that generated programs reach about
+        once in several thousand cases"""
+        import json
+        import os
+        res = []
+        root = os.path.dirname(os.path.dirname(os.path.dirname(os.path.abspath(__file__))))
+        for name in ("known-actor-killed-in-the-round-of-its-creation.json", "known-actor-created-in-the-round-its-host-is-turned-off.json"):
+            path = os.path.join(root, "replays", "C11", name)
+            if os.path.exists(path):
+                d = json.load(open(path))
+                prog = dict(d["case"] if "case" in d else d, lifecycle=True)
+                res.append({"program": prog, "configs": [["thread", 2, "futex"], ["boost", 2, "posix"], ["raw", 4, "busy_wait"]]})
+        return res
 
     def check(self, case):
         oc = core.Outcome()
         sc = case["program"]
+        life = bool(sc.get("lifecycle"))
+        run_ = timing.run if life else s4u.run
+        cfg0 = list(sc.get("cfg", [])) if life else []
         base = dict(sc)
-        base["cfg"] = ["contexts/factory:raw", "contexts/nthreads:1"]
-        ref = s4u.run(base)
+        base["cfg"] = cfg0 + ["contexts/factory:raw", "contexts/nthreads:1"]
+        ref = run_(base)
         oc.evals = 1
         if ref.wall_exceeded:
             raise core.Inconclusive()
+        if life:
+            oc.labels.append("actor-management-program")
+        if life and not ref.done:
+            oc.invalid = True      # the recorded crash classes of C11 (known_findings.json) are C11's business, not a difference between factories
+            return oc
         if not ref.done:
             oc.bad("run-crashed:raw/1", "reference run did not finish: " + ref.crash_text())
             return oc
@@ -76,9 +107,9 @@ class C02(core.Prop):
         configs = [["boost", 1, "futex"], ["thread", 1, "futex"]] + case["configs"]
         for fac, nth, syn in configs:
             run = dict(sc)
-            run["cfg"] = ["contexts/factory:" + fac, "contexts/nthreads:%d" % nth] + (["contexts/synchro:" + syn] if nth > 1 else [])
+            run["cfg"] = cfg0 + ["contexts/factory:" + fac, "contexts/nthreads:%d" % nth] + (["contexts/synchro:" + syn] if nth > 1 else [])
             name = "%s/%d/%s" % (fac, nth, syn)
-            log = s4u.run(run, cpu=60, wall=400)
+            log = run_(run, cpu=60, wall=400)
             oc.evals += 1
             if log.wall_exceeded:
                 raise core.Inconclusive()
